@@ -238,6 +238,159 @@ def wide_tails(ck, tier, seed):
                             break
 
 
+def clipped_inputs(ck, tier, seed):
+    """float32 data clipped to the tail bound (x.clamp(-B, B)) for bounds float32 has to round (0.6, 1.1, 1.2, 2.2, 0.3): inputs exactly
+    on +-float32(B) evaluate, without raising, to what the float64 twin returns on the same numbers"""
+    for fam in sh.FAMILIES:
+        for B in (0.6, 1.1, 1.2, 2.2, 0.3, 1.0):
+            for K in (3, 6):
+                g = tgen(seed, "c19clip", fam, B, K)
+                p64 = sh.gen_params(fam, K, True, "normal", g)
+                p32 = {k: v.float() for k, v in p64.items()}
+                x32 = (torch.randn(8, generator=g) * 2 * B).clamp(-B, B)
+                x32[0], x32[1] = -B, B
+                for inverse in (False, True):
+                    a = sh.call(fam, inverse, x32, p32, tail_bound=B)
+                    b = sh.call(fam, inverse, x32.double(), p64, tail_bound=B)
+                    ck.case(("c19-clipped", fam, B, K, inverse), nontrivial=True)
+                    case = {"search": "clipped-inputs-f32", "family": fam, "tail_bound": B, "K": K, "inverse": inverse, "seed": seed}
+                    if b[0] != "ok":
+                        continue
+                    if a[0] != "ok":
+                        ck.finding("precision:spline-float32-raises:%s" % fam,
+                                   "unconstrained %s spline, tail bound %g, %s, float32 inputs clipped to the bound: raises %s (%s), float64 evaluates"
+                                   % (fam, B, "inverse" if inverse else "forward", a[1], str(a[2])[:80]), case)
+                        break
+                    if fam == "cubic" and inverse:
+                        continue
+                    slope = torch.exp(b[1][1].clamp(max=12))
+                    if not bool(torch.isfinite(a[1][0]).all()) or bool(((a[1][0].double() - b[1][0]).abs() > 1e-4 * max(B, 1.0) * (1 + slope)).any()):
+                        ck.finding("precision:spline-float32-disagrees:%s" % fam,
+                                   "unconstrained %s spline, tail bound %g, %s, clipped float32 inputs: max error %.3g"
+                                   % (fam, B, "inverse" if inverse else "forward", float((a[1][0].double() - b[1][0]).abs().max())), case)
+                        break
+
+
+def rnd32_exact(q):
+    """round-to-nearest-even onto binary32 (24-bit significands, exponents from -149), on exact rationals: the operator Flocq's
+    round radix2 (FLT_exp (-149) 24) ZnearestE denotes (Proofs/Float32P.v rnd32)"""
+    from fractions import Fraction
+    if q == 0:
+        return Fraction(0)
+    a = abs(q)
+    e = a.numerator.bit_length() - a.denominator.bit_length()         # 2^(e-1) <= a < 2^(e+1)
+    if Fraction(2) ** e > a:
+        e -= 1                                                       # now 2^e <= a < 2^(e+1)
+    fexp = max(e + 1 - 24, -149)
+    m = a / Fraction(2) ** fexp
+    lo = m.numerator // m.denominator
+    rem = m - lo
+    if rem > Fraction(1, 2) or (rem == Fraction(1, 2) and lo % 2 == 1):
+        lo += 1
+    r = lo * Fraction(2) ** fexp
+    return r if q > 0 else -r
+
+
+def float32_dictionary(ck, tier, seed):
+    """the tie of the single-precision dictionary Fops32 (Proofs/Float32P.v) to the implementation: the regenerated affine formulas
+    evaluated with exact rationals and rnd32 after every operation equal, bit for bit, what the float32 modules return; and the
+    error bounds of C19_actnorm_forward / inverse_float32_error and C19_conditional_normal_sampler_float32_error hold on the same inputs"""
+    from fractions import Fraction
+    from nflows.transforms.normalization import ActNorm
+    from nflows.distributions.normal import ConditionalDiagonalNormal
+    g = tgen(seed, "c19-f32dict")
+    n = 60 if tier == "quick" else 600
+    u = Fraction(1, 2 ** 24)
+    tiny = Fraction(1, 2 ** 126)
+    mism, nb = [], 0
+    t = ActNorm(1).eval()
+    d = ConditionalDiagonalNormal([1]).eval()
+    for k in range(n):
+        mag = 10.0 ** float(torch.randint(-6, 7, (1,), generator=g))
+        ls, sh_, x = (torch.randn(3, generator=g) * torch.tensor([1.5, mag, mag])).tolist()
+        ls, sh_, x = torch.tensor(ls).float(), torch.tensor(sh_).float(), torch.tensor(x).float()
+        with torch.no_grad():
+            t.log_scale.copy_(ls.reshape(1)); t.shift.copy_(sh_.reshape(1)); t.initialized.fill_(True)
+            scale = torch.exp(t.log_scale)[0]            # float32 value the module multiplies by
+            y = t(x.reshape(1, 1))[0][0, 0]
+            xi = t.inverse(x.reshape(1, 1))[0][0, 0]
+        S, T_, X = Fraction(float(scale)), Fraction(float(sh_)), Fraction(float(x))
+        ck.case(("c19-f32dict", k), nontrivial=True)
+        # forward: rnd(rnd(S X) + T)
+        p_ = rnd32_exact(S * X)
+        yf = rnd32_exact(p_ + T_)
+        nb += 2
+        if Fraction(float(y)) != yf:
+            mism.append({"formula": "an_forward_out", "scale": float(scale), "shift": float(sh_), "x": float(x), "model": float(yf), "impl": float(y)})
+        elif abs(S * X) >= tiny and abs(p_ + T_) >= tiny and abs(yf - (S * X + T_)) > u * (2 + u) * abs(S * X) + u * abs(T_):
+            ck.finding("precision:float32-error-bound-violated:an_forward_out", "scale %r shift %r x %r" % (float(scale), float(sh_), float(x)),
+                       {"search": "float32-dictionary", "k": k, "seed": seed})
+        # inverse: rnd(rnd(X - T) / S)
+        d_ = rnd32_exact(X - T_)
+        xf = rnd32_exact(d_ / S)
+        if Fraction(float(xi)) != xf:
+            mism.append({"formula": "an_inverse_out", "scale": float(scale), "shift": float(sh_), "y": float(x), "model": float(xf), "impl": float(xi)})
+        elif abs(X - T_) >= tiny and abs(d_ / S) >= tiny and abs(xf - (X - T_) / S) > u * (2 + u) * abs((X - T_) / S):
+            ck.finding("precision:float32-error-bound-violated:an_inverse_out", "scale %r shift %r y %r" % (float(scale), float(sh_), float(x)),
+                       {"search": "float32-dictionary", "k": k, "seed": seed})
+    # BatchNorm in evaluation mode: weight * ((x - mean) / sqrt(var + eps)) + bias, six rounded operations
+    from nflows.transforms.normalization import BatchNorm
+    import math as _m
+
+    def sqrt_rnd32(q):
+        """rnd32(sqrt(q)) for a positive rational: sqrt to 200 bits by integer square root (the square root of a binary32 number is
+        never that close to a rounding boundary), then rounded exactly"""
+        K = 200
+        val = _m.isqrt((q.numerator << (2 * K)) // q.denominator)
+        return rnd32_exact(Fraction(val, 1 << K))
+    bn = BatchNorm(1, eps=1e-5).eval()
+    for k in range(n):
+        mag = 10.0 ** float(torch.randint(-4, 5, (1,), generator=g))
+        uw, bias, mean, x = (torch.randn(4, generator=g) * torch.tensor([1.0, mag, mag, mag])).tolist()
+        var = float(torch.rand(1, generator=g)) * mag * mag + 1e-3
+        with torch.no_grad():
+            bn.unconstrained_weight.fill_(uw); bn.bias.fill_(bias); bn.running_mean.fill_(mean); bn.running_var.fill_(var)
+            w32 = bn.weight[0]
+            x32 = torch.tensor([[x]], dtype=torch.float32)
+            y = bn(x32)[0][0, 0]
+        Wq, Bq, Mq, Vq, Xq, Eq = (Fraction(float(w32)), Fraction(float(bn.bias[0])), Fraction(float(bn.running_mean[0])), Fraction(float(bn.running_var[0])),
+                                  Fraction(float(x32[0, 0])), Fraction(float(torch.tensor(bn.eps, dtype=torch.float32))))
+        ck.case(("c19-f32dict-bn", k), nontrivial=True)
+        d_ = rnd32_exact(Xq - Mq)
+        s1 = rnd32_exact(Vq + Eq)
+        # the square root: torch's vectorised float32 sqrt is faithfully, not always correctly, rounded (found by this very run:
+        # sqrt(float32 0.00101034389808774) comes back as the farther neighbour by 0.08 % of an ulp), so the dictionary of
+        # C19_batchnorm_forward_float32_error takes ANY square root within 2u.  Here: torch's value is used for this step after
+        # checking that it is one of the two binary32 neighbours of the exact root (relative error below 2u)
+        s2c = sqrt_rnd32(s1)
+        s2 = Fraction(float(torch.sqrt(torch.tensor(float(s1), dtype=torch.float32))))
+        if s2 != s2c:
+            ck.count("float32 sqrt not correctly rounded (faithful)")
+            K_ = 200
+            exact_root = Fraction(_m.isqrt((s1.numerator << (2 * K_)) // s1.denominator), 1 << K_)
+            if abs(s2 - exact_root) > 2 * u * exact_root:
+                ck.finding("precision:float32-sqrt-not-faithful", "torch.sqrt(float32 %r) = %r, exact %r" % (float(s1), float(s2), float(exact_root)),
+                           {"search": "float32-dictionary", "k": k, "seed": seed})
+                continue
+        q_ = rnd32_exact(d_ / s2)
+        p_ = rnd32_exact(Wq * q_)
+        yf = rnd32_exact(p_ + Bq)
+        nb += 1
+        if Fraction(float(y)) != yf:
+            mism.append({"formula": "bn_forward_out", "weight": float(w32), "bias": float(bias), "mean": float(mean), "var": float(var), "x": float(x),
+                         "model": float(yf), "impl": float(y)})
+            continue
+        # the proved bound, against the exact value computed with 200-bit square roots
+        K = 200
+        sq = Fraction(_m.isqrt(((Vq + Eq).numerator << (2 * K)) // (Vq + Eq).denominator), 1 << K)
+        Mt = Wq * ((Xq - Mq) / sq)
+        small = [abs(Xq - Mq), abs(Vq + Eq), abs(s2), abs(d_ / s2), abs(Wq * q_), abs(p_ + Bq)]
+        if min(small) >= tiny and abs(yf - (Mt + Bq)) > 8 * u * (1 + u) * abs(Mt) + u * (abs(Mt) + abs(Bq)) + Fraction(1, 2 ** 150):
+            ck.finding("precision:float32-error-bound-violated:bn_forward_out", "weight %r bias %r mean %r var %r x %r" % (float(w32), bias, mean, var, x),
+                       {"search": "float32-dictionary", "k": k, "seed": seed})
+    ck.correspondence("single-precision dictionary Fops32 (exact rationals + rnd32) vs the float32 ActNorm / BatchNorm modules, bit for bit", nb, mism)
+
+
 def dense_inverse(ck, tier, seed):
     """the inverse direction of the four spline functions in float32 on a dense grid of the output interval: root formulas
     that cancel lose digits only next to isolated points inside a bin, which a handful of knots never hits"""
@@ -404,6 +557,8 @@ def run(tier, seed):
     wide_tails(ck, tier, seed)
     batch_statistics(ck, tier, seed)
     short_reflection_vectors(ck, tier, seed)
+    clipped_inputs(ck, tier, seed)
+    float32_dictionary(ck, tier, seed)
     return ck.finish()
 
 
